@@ -87,6 +87,8 @@ func c02(c *Ctx) {
 	}
 	// a vector of many elements is as much the schema's serialisation as a vector of two: the nesting level the
 	// decoder counts is given back after every value, so siblings are read at their parent's level plus one
+	r.Rule("R02.I", "a container of n messages decodes to n messages (= the container-item rule of C09, filed under C02): the element appended per item is created in that iteration", 1)
+	c.containerItemsDistinct("R02.I")
 	r.Rule("R02.W", "nothing reachable from tl.Marshal writes a package-level variable or appends / copies into the storage of one (a shared zero-padding array filled by one value shows through the leading zeros of the next)", 1)
 	if f := c.P.Func(load.TLPkg, "", "Marshal"); f != nil {
 		c.noGlobalWrites("R02.W", []*ssa.Function{f}, "the encoding path: the bytes of one value would depend on the values encoded before it")
